@@ -172,11 +172,15 @@ pub fn probe_store_api(sc: &Scenario) -> Result<u64, (String, String)> {
         let (Ok(tp), Ok(ti)) = (parser.parse("{% pprobe n %}"), parser.parse("{% include n %}")) else {
             return Err(("harness".into(), "probe templates do not parse".into()));
         };
-        for cand in &cands {
+        for (ci, cand) in cands.iter().enumerate() {
             let mut data = sc.data.to_object();
             data.insert("n".into(), liquid::model::Value::scalar(cand.clone()));
             let has = names.contains(cand);
             let usable = has && !bad.contains(cand);
+            // every other name is probed *before* its first use, so that the optional lookup is the
+            // one that has to compile it under the lazy policy
+            let probe_first = ci % 2 == 1;
+            let early = if probe_first { Some(render(&tp, &data)) } else { None };
             let inc = render(&ti, &data);
             let want_r = match (&inc, usable) {
                 (_, false) => "-".to_string(),
@@ -184,7 +188,10 @@ pub fn probe_store_api(sc: &Scenario) -> Result<u64, (String, String)> {
                 (_, true) => "!".to_string(),
             };
             let want = format!("«P c={} t={} g={} n={} r={want_r}»", has as u8, usable as u8, usable as u8, names.join(","));
-            let got = render(&tp, &data);
+            let got = match early {
+                Some(g) => g,
+                None => render(&tp, &data),
+            };
             observed += 1;
             if let crate::exec::Out::Panic(p) = &got {
                 return Err((p.key(), format!("partial store probe panicked under {}: {}", policy.name(), p.msg)));
